@@ -1109,6 +1109,274 @@ theorem init_inv (tcp connected : Bool) : Inv (Sess.init tcp connected) [] := by
   unfold Inv Sess.init
   simp [recvFrom]
 
+/-! ## the first flight through the connection model: the session decides exactly where `_next_layer` answers -/
+
+/-- every queued event is client data -/
+def QD (s : Sess) : Prop := ∀ e ∈ s.queue, ∃ d, e = Ev.dataC d
+
+theorem relayAll_dataC (s : Sess) (q : List Ev) (hp : s.phase = .relay) (hq : ∀ e ∈ q, ∃ d, e = Ev.dataC d) :
+    (relayAll s q).phase = .relay := by
+  induction q generalizing s with
+  | nil => simpa [relayAll] using hp
+  | cons e es ih =>
+    obtain ⟨d, rfl⟩ := hq e (by simp)
+    simp only [relayAll, hp, if_true]
+    apply ih
+    · simp [relayEv, Sess.emit, hp]
+    · intro e he; exact hq e (List.mem_cons_of_mem _ he)
+
+theorem startRelay_first (s : Sess) (hq : QD s) :
+    (startRelay s s.queue).stack = s.stack ∧
+    (((startRelay s s.queue).phase = .relay) ∨ ((startRelay s s.queue).phase = .connecting ∧ QD (startRelay s s.queue))) := by
+  cases hc : s.connected with
+  | true =>
+    have : startRelay s s.queue
+        = relayAll { s.emit (if s.flow = true then [Out.hook 0] else []) with phase := Phase.relay, queue := [] } s.queue := by
+      simp [startRelay, Sess.emit, hc]
+    rw [this]
+    exact ⟨(relayAll_spec _ s.queue rfl).2.1.stack, Or.inl (relayAll_dataC _ s.queue rfl hq)⟩
+  | false =>
+    have : startRelay s s.queue
+        = { (s.emit (if s.flow = true then [Out.hook 0] else [])).emit [Out.openServer] with phase := Phase.connecting, queue := s.queue } := by
+      simp [startRelay, Sess.emit, hc]
+    rw [this]
+    exact ⟨rfl, Or.inr ⟨rfl, hq⟩⟩
+
+/-- after the decision more client data changes neither the stack nor the kind of phase -/
+theorem step_dataC_decided {Pat : Type} (E : Env Pat) (c : NCfg Pat) (s : Sess) (d : Bytes)
+    (hp : s.phase = .relay ∨ (s.phase = .connecting ∧ QD s) ∨ s.phase = .intercepted) :
+    (step E c s (.dataC d)).stack = s.stack ∧
+    ((step E c s (.dataC d)).phase = .relay ∨ ((step E c s (.dataC d)).phase = .connecting ∧ QD (step E c s (.dataC d))) ∨
+      (step E c s (.dataC d)).phase = .intercepted) := by
+  rcases hp with hp | ⟨hp, hq⟩ | hp
+  · simp [step, noteEv, hp, relayEv, Sess.emit]
+  · refine ⟨by simp [step, noteEv, hp], Or.inr (Or.inl ⟨by simp [step, noteEv, hp], ?_⟩)⟩
+    intro e he
+    simp only [step, noteEv, hp, List.mem_append, List.mem_cons, List.mem_nil_iff, or_false] at he
+    rcases he with he | he
+    · exact hq e he
+    · exact ⟨d, he⟩
+  · simp [step, noteEv, hp]
+
+theorem run_dataC_decided {Pat : Type} (E : Env Pat) (c : NCfg Pat) (s : Sess) (segs : List Bytes)
+    (hp : s.phase = .relay ∨ (s.phase = .connecting ∧ QD s) ∨ s.phase = .intercepted) :
+    (run E c s (segs.map Ev.dataC)).stack = s.stack ∧
+    ((run E c s (segs.map Ev.dataC)).phase = .relay ∨ (run E c s (segs.map Ev.dataC)).phase = .connecting ∨
+      (run E c s (segs.map Ev.dataC)).phase = .intercepted) := by
+  induction segs generalizing s with
+  | nil => rcases hp with h | ⟨h, _⟩ | h <;> simp [run, h]
+  | cons d ds ih =>
+    obtain ⟨h1, h2⟩ := step_dataC_decided E c s d hp
+    have := ih (step E c s (.dataC d)) h2
+    simp only [List.map_cons, run, List.foldl_cons] at this ⊢
+    exact ⟨this.1.trans h1, this.2⟩
+
+/-- **the session asks like `askSegs`**: feeding the first flight segment by segment, the connection model stays undecided
+    exactly as long as `_next_layer` says NeedsMoreData on the accumulated bytes, and then instantiates exactly the stack
+    `_next_layer` returns there -/
+theorem session_asks {Pat : Type} (E : Env Pat) (c : NCfg Pat) (s0 : Sess) (segs : List Bytes)
+    (hp : s0.phase = .undecided) (hds : s0.ds = []) (hq : QD s0) :
+    match askSegs (fun d => nextLayer E c d []) s0.dc segs with
+    | .needMore => (run E c s0 (segs.map Ev.dataC)).phase = .undecided ∧
+        (run E c s0 (segs.map Ev.dataC)).dc = s0.dc ++ segs.flatten
+    | .ok st => (run E c s0 (segs.map Ev.dataC)).stack = st ∧
+        ((run E c s0 (segs.map Ev.dataC)).phase = .relay ∨ (run E c s0 (segs.map Ev.dataC)).phase = .connecting ∨
+          (run E c s0 (segs.map Ev.dataC)).phase = .intercepted) := by
+  induction segs generalizing s0 with
+  | nil => simp [askSegs, run, hp]
+  | cons d ds ih =>
+    simp only [askSegs, List.map_cons, run, List.foldl_cons, List.flatten_cons]
+    have hstep : step E c s0 (.dataC d)
+        = askNL E c { s0 with queue := s0.queue ++ [Ev.dataC d], dc := s0.dc ++ d } := by
+      simp [step, noteEv, hp]
+    have hq1 : QD { s0 with queue := s0.queue ++ [Ev.dataC d], dc := s0.dc ++ d } := by
+      intro e he
+      simp only [List.mem_append, List.mem_cons, List.mem_nil_iff, or_false] at he
+      rcases he with he | he
+      · exact hq e he
+      · exact ⟨d, he⟩
+    cases hn : nextLayer E c (s0.dc ++ d) [] with
+    | needMore =>
+      have hs1 : step E c s0 (.dataC d) = { s0 with queue := s0.queue ++ [Ev.dataC d], dc := s0.dc ++ d } := by
+        rw [hstep]; simp [askNL, hds, hn]
+      have := ih { s0 with queue := s0.queue ++ [Ev.dataC d], dc := s0.dc ++ d } hp hds hq1
+      simp only [run] at this
+      rw [hs1]
+      simpa [List.append_assoc] using this
+    | ok st =>
+      simp only
+      have hdec : (step E c s0 (.dataC d)).stack = st ∧
+          ((step E c s0 (.dataC d)).phase = .relay ∨ ((step E c s0 (.dataC d)).phase = .connecting ∧ QD (step E c s0 (.dataC d))) ∨
+            (step E c s0 (.dataC d)).phase = .intercepted) := by
+        have hn' : nextLayer E c (s0.dc ++ d) s0.ds = .ok st := by rw [hds]; exact hn
+        rw [hstep]
+        unfold askNL
+        simp only [hn']
+        split
+        · rename_i ig
+          obtain ⟨h1, h2⟩ := startRelay_first { s0 with queue := s0.queue ++ [Ev.dataC d], dc := s0.dc ++ d, stack := [LK.tcp ig], flow := !ig } hq1
+          exact ⟨h1, by rcases h2 with h | h; exact Or.inl h; exact Or.inr (Or.inl h)⟩
+        · rename_i ig
+          obtain ⟨h1, h2⟩ := startRelay_first { s0 with queue := s0.queue ++ [Ev.dataC d], dc := s0.dc ++ d, stack := [LK.udp ig], flow := !ig } hq1
+          exact ⟨h1, by rcases h2 with h | h; exact Or.inl h; exact Or.inr (Or.inl h)⟩
+        · exact ⟨rfl, Or.inr (Or.inr rfl)⟩
+      obtain ⟨h1, h2⟩ := run_dataC_decided E c (step E c s0 (.dataC d)) ds hdec.2
+      simp only [run] at h1 h2
+      exact ⟨h1.trans hdec.1, h2⟩
+
+/-- an "ignore" answer of the verdict asked segment by segment is a relay stack asked segment by segment -/
+theorem askSegs_ignore_relay {Pat : Type} (E : Env Pat) (c : NCfg Pat) (acc : Bytes) (segs : List Bytes)
+    (h : askSegs (fun d => ignoreConnection E c.toCfg d []) acc segs = .ok true) :
+    askSegs (fun d => nextLayer E c d []) acc segs = .ok [relayLayer c.tcp (!c.showIgnored)] := by
+  induction segs generalizing acc with
+  | nil => simp [askSegs] at h
+  | cons s ss ih =>
+    simp only [askSegs] at h ⊢
+    cases hf : ignoreConnection E c.toCfg (acc ++ s) [] with
+    | needMore =>
+      simp only [hf] at h
+      simp only [nextLayer, hf]
+      exact ih (acc ++ s) h
+    | ok b =>
+      simp only [hf] at h
+      cases h
+      simp [nextLayer, hf]
+
+/-! ## for EVERY history, admissible or not: what is sent is a prefix of what was received -/
+
+/-- nothing invented, altered, reordered or duplicated -/
+def Inv3 (s : Sess) (hist : List Ev) : Prop := ∀ b, ∃ t, sentTo b s.out ++ t = recvFrom b hist
+
+theorem relayAll_prefix (s : Sess) (q : List Ev) (hp : s.phase = .relay) :
+    ∃ q1 q2, q = q1 ++ q2 ∧ ∀ b, sentTo b (relayAll s q).out = sentTo b s.out ++ recvFrom b q1 := by
+  induction q generalizing s with
+  | nil => exact ⟨[], [], rfl, fun b => by simp [relayAll, recvFrom]⟩
+  | cons e es ih =>
+    simp only [relayAll, hp, if_true]
+    obtain ⟨hph, _, hsent, _⟩ := relayEv_spec s e hp
+    rcases hph with hph | hph
+    · obtain ⟨q1, q2, hq, h⟩ := ih (relayEv s e) hph
+      refine ⟨e :: q1, q2, by simp [hq], ?_⟩
+      intro b
+      rw [h b, hsent b]
+      have : recvFrom b (e :: q1) = recvFrom b [e] ++ recvFrom b q1 := recvFrom_append b [e] q1
+      rw [this, List.append_assoc]
+    · have hstop : relayAll (relayEv s e) es = relayEv s e := by
+        cases es with
+        | nil => rfl
+        | cons x xs => simp [relayAll, hph]
+      rw [hstop]
+      exact ⟨[e], es, rfl, hsent⟩
+
+theorem inv3_of_nil (s : Sess) (hist : List Ev) (h : ∀ b, sentTo b s.out = []) : Inv3 s hist :=
+  fun b => ⟨recvFrom b hist, by rw [h b]; rfl⟩
+
+theorem relayAll_inv3 (s0 : Sess) (q hist : List Ev) (hp : s0.phase = .relay) (hsent : ∀ b, sentTo b s0.out = [])
+    (hq : ∀ b, recvFrom b q = recvFrom b hist) : Inv3 (relayAll s0 q) hist := by
+  obtain ⟨q1, q2, hqq, h⟩ := relayAll_prefix s0 q hp
+  intro b
+  refine ⟨recvFrom b q2, ?_⟩
+  rw [h b, hsent b, ← hq b, hqq, recvFrom_append]
+  rfl
+
+theorem startRelay_inv3 (s : Sess) (hist : List Ev) (hout : s.out = [])
+    (hq : ∀ b, recvFrom b s.queue = recvFrom b hist) : Inv3 (startRelay s s.queue) hist := by
+  cases hc : s.connected with
+  | true =>
+    have : startRelay s s.queue
+        = relayAll { s.emit (if s.flow = true then [Out.hook 0] else []) with phase := Phase.relay, queue := [] } s.queue := by
+      simp [startRelay, Sess.emit, hc]
+    rw [this]
+    apply relayAll_inv3 _ _ _ rfl _ hq
+    intro b
+    show sentTo b (s.out ++ if s.flow = true then [Out.hook 0] else []) = []
+    rw [hout]; cases s.flow <;> simp [sentTo]
+  | false =>
+    have : startRelay s s.queue
+        = { (s.emit (if s.flow = true then [Out.hook 0] else [])).emit [Out.openServer] with phase := Phase.connecting, queue := s.queue } := by
+      simp [startRelay, Sess.emit, hc]
+    rw [this]
+    apply inv3_of_nil
+    intro b
+    show sentTo b ((s.out ++ if s.flow = true then [Out.hook 0] else []) ++ [Out.openServer]) = []
+    rw [hout]; cases s.flow <;> simp [sentTo]
+
+theorem askNL_inv3 {Pat : Type} (E : Env Pat) (c : NCfg Pat) (s : Sess) (hist : List Ev) (hout : s.out = [])
+    (hq : ∀ b, recvFrom b s.queue = recvFrom b hist) : Inv3 (askNL E c s) hist := by
+  unfold askNL
+  cases nextLayer E c s.dc s.ds with
+  | needMore => exact inv3_of_nil _ _ (fun b => by rw [hout]; rfl)
+  | ok st =>
+    simp only
+    split
+    · rename_i ig
+      exact startRelay_inv3 { s with stack := [LK.tcp ig], flow := !ig } hist hout hq
+    · rename_i ig
+      exact startRelay_inv3 { s with stack := [LK.udp ig], flow := !ig } hist hout hq
+    · exact inv3_of_nil _ _ (fun b => by show sentTo b s.out = []; rw [hout]; rfl)
+
+theorem inv3_extend (s t : Sess) (hist : List Ev) (e : Ev) (h : Inv3 s hist) (hout : t.out = s.out) :
+    Inv3 t (hist ++ [e]) := by
+  intro b
+  obtain ⟨x, hx⟩ := h b
+  exact ⟨x ++ recvFrom b [e], by rw [hout, ← List.append_assoc, hx, recvFrom_append]⟩
+
+theorem step_inv3 {Pat : Type} (E : Env Pat) (c : NCfg Pat) (s : Sess) (hist : List Ev) (e : Ev)
+    (hI : Inv s hist) (h3 : Inv3 s hist) : Inv3 (step E c s e) (hist ++ [e]) := by
+  obtain ⟨nph, nout, nq, ndc, nds, nstk, nflow, nconn⟩ := noteEv_same s e
+  unfold step
+  simp only [nph]
+  cases hp : s.phase with
+  | undecided =>
+    unfold MitmVerif.C19.Inv at hI; rw [hp] at hI
+    obtain ⟨hout, _, hq, _, _⟩ := hI
+    have hq' : ∀ b, recvFrom b ((noteEv s e).queue ++ [e]) = recvFrom b (hist ++ [e]) := by
+      intro b; rw [nq, recvFrom_append, recvFrom_append, hq b]
+    cases e with
+    | dataC d => exact askNL_inv3 E c _ _ (by simp [nout, hout]) hq'
+    | dataS d => exact askNL_inv3 E c _ _ (by simp [nout, hout]) hq'
+    | closeC => exact inv3_of_nil _ _ (fun b => by simp [Sess.emit, nout, hout, sentTo])
+    | closeS => exact inv3_of_nil _ _ (fun b => by simp [nout, hout, sentTo])
+    | connOk => exact inv3_of_nil _ _ (fun b => by simp [nout, hout, sentTo])
+    | connErr => exact inv3_of_nil _ _ (fun b => by simp [nout, hout, sentTo])
+  | connecting =>
+    unfold MitmVerif.C19.Inv at hI; rw [hp] at hI
+    obtain ⟨_, _, hq⟩ := hI
+    cases e with
+    | connOk =>
+      simp only
+      apply relayAll_inv3 _ _ _ rfl
+      · intro b; simp only [nout]; exact (hq b).1
+      · intro b; rw [nq, (hq b).2, recvFrom_append]; simp [recvFrom]
+    | connErr =>
+      apply inv3_of_nil
+      intro b
+      simp only [Sess.emit, nout, nflow, sentTo_append, (hq b).1]
+      cases s.flow <;> cases (noteEv s Ev.connErr).client.closed <;> simp [sentTo]
+    | dataC d => exact inv3_of_nil _ _ (fun b => by simp only [nout]; exact (hq b).1)
+    | dataS d => exact inv3_of_nil _ _ (fun b => by simp only [nout]; exact (hq b).1)
+    | closeC => exact inv3_of_nil _ _ (fun b => by simp only [nout]; exact (hq b).1)
+    | closeS => exact inv3_of_nil _ _ (fun b => by simp only [nout]; exact (hq b).1)
+  | relay =>
+    unfold MitmVerif.C19.Inv at hI; rw [hp] at hI
+    obtain ⟨_, _, hs⟩ := hI
+    simp only
+    obtain ⟨_, _, h3', _⟩ := relayEv_spec (noteEv s e) e (by rw [nph, hp])
+    intro b
+    exact ⟨[], by rw [List.append_nil, h3' b, nout, hs b, recvFrom_append]⟩
+  | done => exact inv3_extend s _ hist e h3 nout
+  | failed => exact inv3_extend s _ hist e h3 nout
+  | intercepted => exact inv3_extend s _ hist e h3 nout
+  | aborted => exact inv3_extend s _ hist e h3 nout
+
+theorem run_inv3 {Pat : Type} (E : Env Pat) (c : NCfg Pat) (s : Sess) (hist evs : List Ev)
+    (hI : Inv s hist) (h3 : Inv3 s hist) : Inv3 (run E c s evs) (hist ++ evs) := by
+  induction evs generalizing s hist with
+  | nil => simpa [run] using h3
+  | cons e es ih =>
+    have := ih (step E c s e) (hist ++ [e]) (step_inv E c s hist e hI) (step_inv3 E c s hist e hI h3)
+    simpa [run, List.append_assoc] using this
+
 /-! ## through the closing events: admissible histories -/
 
 /-- what the environment (server.py's read loops) can deliver in state `s`: data and EOF only from a connection that is
